@@ -310,7 +310,7 @@ PROPS['C17'] = dict(ROUTER_COMMON, **{
 PROPS['C07'] = dict(ROUTER_COMMON, **{
     'modules': ['IpcModel.Props.C07'],
     'theorems': ['C07.C07_dispatch', 'C07.C07_dispatch_partial_msg', 'C07.C07_dispatch_partial_closed', 'C07.C07_keys', 'C07.C07_fresh', 'Router.step_fresh',
-                 'Router.dispatch_run', 'Router.run_gone', 'C07.C07_shape', 'C07.C07_code_variant'],
+                 'Router.dispatch_run', 'Router.run_gone', 'C07.C07_shape', 'C07.C07_code_variant', 'C07.C07_undecodable_isolated'],
     'scenarios': (lambda a: (lambda tier, seed: a(tier, seed) + [{'build': 'force-inprocess', 'args': ['router', '--mode', 'seq', '--seed', str(seed + 50), '--n', str(2000 if tier == 'thorough' else 150)]}]))(router_scen(800, 8000, 160, 3000)),
     'builds': ['default', 'force-inprocess'],
     'rule': PROPS['C17']['rule'] + '; the sequential router scripts also run on the in-process transport (its receiver set is different code)',
